@@ -100,6 +100,9 @@ structure Cfg where
   transport : Transport
   shape : Shape
   sig : Sig
+  /-- user code or a listener has put a ready-made document into ctx.out_document before the transport asks
+      for the response string (a response cache) -/
+  presetDoc : Bool
   deriving DecidableEq, Repr
 
 /-- the ways `Application.process_request` can go -/
@@ -185,6 +188,8 @@ structure Facts14 where
   reentrantCalls : List (List H)
   /-- does the manager of `@mrpc(_service_class=S)`'s service class end up there, too -/
   mrpcServiceReaches : Bool
+  /-- ServerBase.get_out_string_pull when ctx.out_document is already set: the method-context events -/
+  getOutStringPreset : List Event
   /-- the output protocol's own events while it serialises a result of the given shape / a fault /
       before a failing serialize raises -/
   serOk : OutProto → Shape → List Event
@@ -310,7 +315,7 @@ def fill (F : Facts14) (c : Cfg) (inner : Bool) : SStep → List Step
   | .slot .deserBefore => fires .inProt [.beforeDeserialize]
   | .slot .deserAfter => fires .inProt [.afterDeserialize]
   | .slot .deserPartial => if inner then fires .inProt [.beforeDeserialize] else []
-  | .slot .serOk => fires .outProt (F.serOk c.outp c.shape)   -- (the events do not depend on the value)
+  | .slot .serOk => if c.presetDoc then [] else fires .outProt (F.serOk c.outp c.shape)   -- nothing to serialise
   | .slot .serErr => fires .outProt (F.serErr c.outp)
   | .slot .serPartial => if inner then fires .outProt (F.serPartial c.outp) else []
 
@@ -325,8 +330,8 @@ def effShape (c : Cfg) (inj : Inj) : Shape :=
   if inj.stage = .redirect ∧ c.shape ≠ .void then .none else c.shape
 
 def skelOf (F : Facts14) (c : Cfg) (inj : Inj) (co ro : Option ExcKind) : Skel :=
-  skeleton F (F.proc c.sig) (F.leavesNone c.outp (effShape c inj)) (F.leavesNoneFault c.outp) c.transport inj.stage
-    inj.kind co ro
+  skeleton F (F.proc c.sig) (!c.presetDoc && F.leavesNone c.outp (effShape c inj)) (F.leavesNoneFault c.outp) c.transport
+    inj.stage inj.kind co ro
 
 /-- the whole call for an output protocol, a transport and a result shape -/
 def run (F : Facts14) (c : Cfg) (inj : Inj) (co ro : Option ExcKind) : Run :=
